@@ -1617,6 +1617,7 @@ PIP_Decision_Node::ascii_load(std::istream& s) {
   else if (str == "DECISION") {
     PIP_Decision_Node* const dec = new PIP_Decision_Node(nullptr, nullptr, nullptr);
     true_child = dec;
+    true_child->set_parent(this);
     if (!dec->ascii_load(s)) {
       return false;
     }
@@ -1624,6 +1625,7 @@ PIP_Decision_Node::ascii_load(std::istream& s) {
   else if (str == "SOLUTION") {
     PIP_Solution_Node* const sol = new PIP_Solution_Node(nullptr);
     true_child = sol;
+    true_child->set_parent(this);
     if (!sol->ascii_load(s)) {
       return false;
     }
@@ -1651,6 +1653,7 @@ PIP_Decision_Node::ascii_load(std::istream& s) {
     // Note: normally unreachable code (see comment on ascii_dump).
     PIP_Decision_Node* const dec = new PIP_Decision_Node(nullptr, nullptr, nullptr);
     false_child = dec;
+    false_child->set_parent(this);
     if (!dec->ascii_load(s)) {
       return false;
     }
@@ -1658,6 +1661,7 @@ PIP_Decision_Node::ascii_load(std::istream& s) {
   else if (str == "SOLUTION") {
     PIP_Solution_Node* const sol = new PIP_Solution_Node(nullptr);
     false_child = sol;
+    false_child->set_parent(this);
     if (!sol->ascii_load(s)) {
       return false;
     }
